@@ -29,7 +29,10 @@ FILES = ["a.txt", "b.html", "dir/file.txt", "dir/sub/deep.txt", "dir/.abstract",
          # member paths that contain the archive's own file name
          "XTREEX.zip.txt", "dir/XTREEX.zip.txt", "mirror/XTREEX.zip.d/x.txt",
          # the tail of '/outside/data.txt' (an object of the site outside the archive) once the archive's selector length is cut off
-         "ta.txt", "hing.txt"]
+         "ta.txt", "hing.txt",
+         # text metadata with characters str.splitlines() breaks on and file reading does not; a side file longer than the
+         # 20480-character read-ahead the side-file reader asks for
+         "docs/.names", "docs/x y.txt.abstract", "docs/x y.txt.keywords"]
 
 
 def gen_members(rng, long_chain=False):
@@ -45,6 +48,12 @@ def gen_members(rng, long_chain=False):
             ms.append((f, "F", b"Name=Remote\nType=1\nPath=/r\nHost=example.org\nPort=70\n"))
         elif f == "dir/.names":
             ms.append((f, "F", b"Path=./file.txt\nName=Caf\xe9 renamed \xff\n"))
+        elif f == "docs/.names":
+            ms.append((f, "F", "Path=./readme\nName=Read\x0cme \x1c first\u2028and \x85 last\nNumb=2\n\nPath=./x y.txt\nName=Form\x0bfeed\n".encode()))
+        elif f == "docs/x y.txt.abstract":
+            ms.append((f, "F", b"".join(b"abstract line %04d of a long side file\n" % i for i in range(900))))
+        elif f == "docs/x y.txt.keywords":
+            ms.append((f, "F", "one\x0ctwo \u2029 three\nfour \x1e five\r\nsix\n".encode()))
         elif f == "a.txt.abstract":
             ms.append((f, "F", b"R\xe9sum\xe9 of a.txt \xff\nsecond line\n"))
         elif f == ".cap/a.txt":
